@@ -4,6 +4,7 @@ import (
 	"io"
 	"os"
 	"path/filepath"
+	"syscall"
 
 	"golang.org/x/sys/unix"
 )
@@ -65,7 +66,10 @@ func sparseCopyFile(src, dst string) error {
 // ImageDir takes a crash image of a data directory: what a process death would leave on
 // disk (file contents as in the page cache; nothing that still sits in user-space buffers).
 // Files that vanish while the copy runs (temporary files being renamed) are skipped.
+// Hard links inside the tree are preserved (two names of one file stay one file).
 func ImageDir(src, dst string) error {
+	type inode struct{ dev, ino uint64 }
+	linked := map[inode]string{}
 	return filepath.Walk(src, func(p string, info os.FileInfo, err error) error {
 		if err != nil {
 			return nil
@@ -73,6 +77,16 @@ func ImageDir(src, dst string) error {
 		rel, _ := filepath.Rel(src, p)
 		if info.IsDir() {
 			return os.MkdirAll(filepath.Join(dst, rel), 0o755)
+		}
+		if st, ok := info.Sys().(*syscall.Stat_t); ok && st.Nlink > 1 {
+			k := inode{uint64(st.Dev), uint64(st.Ino)}
+			if first, seen := linked[k]; seen {
+				if lerr := os.Link(first, filepath.Join(dst, rel)); lerr == nil {
+					return nil
+				}
+			} else {
+				linked[k] = filepath.Join(dst, rel)
+			}
 		}
 		if cerr := sparseCopyFile(p, filepath.Join(dst, rel)); cerr != nil && !os.IsNotExist(cerr) {
 			return cerr
